@@ -103,6 +103,9 @@ class FloatTr:
         self.sig_optional = False      # a _signature with a non-integer value is recorded as [] (float-constructed Duration)
         self.state_merge = False       # allow the general if-merge (variables threaded through the result monad)
         self.exn = dict(EXN)
+        self.track_int_consts = False  # keep the statically known value of an integer variable through plain assignments
+        self.merge_mode = "tuple"      # "dup": an if without return duplicates the rest of the block into both branches (every path statically typed)
+        self.class_table = {"int": (Z,), "float": (F,), "timedelta": (DUR, PTD), "Duration": (DUR,)}
         self.live = [set()]            # variables read after the construct being translated (for the general if-merge)
         self.konts = []                # what a block does when its statements run out inside a merged if
         self.names = {"sf_of_Z": "sf_of_Z", "py_float_of_int": "py_float_of_int", "py_int_truediv": "py_int_truediv",
@@ -292,7 +295,12 @@ class FloatTr:
             table = {ast.Lt: f"({x} <? {y})", ast.LtE: f"({x} <=? {y})", ast.Gt: f"({y} <? {x})", ast.GtE: f"({y} <=? {x})",
                      ast.Eq: f"({x} =? {y})", ast.NotEq: f"(negb ({x} =? {y}))"}
             if type(op) in table:
-                return V(table[type(op)], B)
+                kn = None
+                if a.known is not None and b.known is not None:
+                    import operator
+                    kn = {ast.Lt: operator.lt, ast.LtE: operator.le, ast.Gt: operator.gt, ast.GtE: operator.ge, ast.Eq: operator.eq,
+                          ast.NotEq: operator.ne}[type(op)](a.known, b.known)
+                return V(table[type(op)], B, kn)
             self.fail(e, "integer comparison")
         if F in (a.ty, b.ty) and a.ty in (Z, F) and b.ty in (Z, F):
             for v in (a, b):
@@ -422,8 +430,8 @@ class FloatTr:
                 and isinstance(t.args[0], ast.Name) and t.args[0].id in self.param_types):
             pty = self.param_types[t.args[0].id]
             classes = t.args[1].elts if isinstance(t.args[1], ast.Tuple) else [t.args[1]]
-            table = {"int": (Z,), "float": (F,), "timedelta": (DUR, PTD), "Duration": (DUR,)}
-            if pty not in (Z, F, DUR, PTD) or not all(isinstance(c, ast.Name) and c.id in table for c in classes):
+            table = self.class_table
+            if pty not in {x for v in table.values() for x in v} or not all(isinstance(c, ast.Name) and c.id in table for c in classes):
                 return None
             return any(pty in table[c.id] for c in classes)
         return None
@@ -445,7 +453,7 @@ class FloatTr:
         if isinstance(target, ast.Name):
             cn = "v_" + target.id
             env2 = dict(env)
-            env2[target.id] = V(cn, v.ty, v.known if v.ty not in (Z, F) else None)
+            env2[target.id] = V(cn, v.ty, v.known if (v.ty not in (Z, F) or (self.track_int_consts and v.ty == Z)) else None)
             return f"let {cn} := {v.text} in\n  ", env2, st
         if isinstance(target, ast.Attribute) and isinstance(target.value, ast.Name) and target.value.id == "self":
             a = target.attr
@@ -616,8 +624,25 @@ class FloatTr:
                 and isinstance(t.left, ast.Attribute) and isinstance(t.left.value, ast.Name) and t.left.value.id == "self"
                 and t.left.attr in self.cache_fields and t.left.attr not in st and self.self_kind == DUR and not s.orelse):
             return self.block(s.body + rest, env, st)
+        if self.track_int_consts:
+            saved = (self.n, list(self.pre), self.used_bind)
+            try:
+                c0 = self.expr(t, env, st) if not (isinstance(t, ast.Name) and t.id in env and env[t.id].ty == Z) else \
+                    V("", B, None if env[t.id].known is None else env[t.id].known != 0)
+                folded = c0.known if (c0.ty == B and len(self.pre) == len(saved[1])) else None
+            except Unsupported:
+                folded = None
+            self.n, self.pre, self.used_bind = saved
+            if folded is True:
+                return self.block(s.body + ([] if self.returns(s.body) else rest), env, st)
+            if folded is False:
+                return self.block(s.orelse + rest, env, st)
         sel, env_t, env_e = self.cond(t, env, st)
         pre = self.take_pre()
+        if self.merge_mode == "dup" and not self.returns(s.body):
+            a = self.block(s.body + rest, env_t, st)
+            b = self.block(s.orelse + rest, env_e, st)
+            return self.wrap(pre, sel(a, b))
         if self.returns(s.body):
             a = self.block(s.body, env_t, st)
             b = self.block(s.orelse + rest, env_e, st)
@@ -638,6 +663,8 @@ class FloatTr:
     def cond(self, t, env, st):
         """-> (select(textA, textB) -> text, env in the then branch, env in the else branch)"""
         c = self.expr(t, env, st)
+        if c.ty == Z and isinstance(t, ast.Name):
+            c = V(f"(negb ({c.text} =? 0))", B)
         if c.ty != B:
             self.fail(t, "condition that is not a comparison (truthiness is not in the fragment)")
         return (lambda a, b: f"if {c.text} then ({a}) else ({b})"), env, env
